@@ -98,7 +98,32 @@ def gen_seeded():
     return "\n".join(out)
 
 
-GENS = {"benign": gen_benign, "rules": gen_rules, "findings": gen_findings, "mutants": gen_mutants, "seeded": gen_seeded}
+def gen_tally():
+    import collections
+    root = os.path.join(VERIF, "seeded")
+    c = collections.Counter()
+    per = collections.defaultdict(collections.Counter)
+    for n in sorted(os.listdir(root)):
+        mp = os.path.join(root, n, "meta.json")
+        if os.path.exists(mp):
+            with open(mp) as f:
+                m = json.load(f)
+            c[m.get("static_verdict", "?")] += 1
+            per[m.get("property")][m.get("static_verdict", "?")] += 1
+    out = ["| verdict | seeds |", "|---|---|"]
+    for k, v in sorted(c.items()):
+        out.append("| %s | %d |" % (k, v))
+    out.append("| total | %d |" % sum(c.values()))
+    out.append("")
+    out.append("Per property: " + "; ".join("%s %s" % (p, ", ".join("%d %s" % (v, k) for k, v in sorted(cc.items()))) for p, cc in sorted(per.items())) + ".")
+    nb = len([f for f in os.listdir(os.path.join(VERIF, "benign")) if f.endswith(".patch")])
+    nm = sum(len([f for f in os.listdir(os.path.join(VERIF, "mutants", d)) if f.endswith(".patch")]) for d in os.listdir(os.path.join(VERIF, "mutants")))
+    out.append("")
+    out.append("Self-test corpus: %d mutants (`mutants/`), %d seeds (`seeded/`), %d behaviour-preserving patches (`benign/`)." % (nm, sum(c.values()), nb))
+    return "\n".join(out)
+
+
+GENS = {"tally": gen_tally, "benign": gen_benign, "rules": gen_rules, "findings": gen_findings, "mutants": gen_mutants, "seeded": gen_seeded}
 
 
 def main():
